@@ -1,6 +1,6 @@
 INIT Init
 NEXT Next
 CONSTANTS
-  ClearOnError = FALSE
+  ClearOnError = TRUE
 INVARIANT Inv
 CHECK_DEADLOCK FALSE
